@@ -2,7 +2,7 @@
 import copy
 import io
 import json
-from suites.common import exc_result
+from suites.common import rstr, exc_result
 
 EXC = (ValueError, TypeError, AttributeError, KeyError, IndexError)
 
@@ -22,11 +22,26 @@ SIGKEYS = [None, "ABCDEF12", "abcdef12", "FD431D51", ""]
 CATS = ["binary", "debug", "source"]
 
 
+_ALL_ARCHES = []
+
+
+def random_nevra(rng, src):
+    """a legal name-epoch:version-release.arch drawn from the grammar, the architecture from the library's whole table"""
+    if not _ALL_ARCHES:
+        from suites.common import reflect
+        _ALL_ARCHES.extend(a for a in reflect()["RPM_ARCHES"] if a not in ("src", "nosrc"))
+    seg = lambda: rstr(rng, "abcxyzABC0123456789._+", 1, 5)
+    name = "-".join([seg() for _ in range(rng.randint(1, 3))])
+    arch = rng.choice(["src", "nosrc"]) if src else rng.choice(_ALL_ARCHES)
+    s = "%s-%s:%s-%s.%s" % (name, rng.choice(["0", "1", "12", "03"]), rstr(rng, "0123456789.abc~^_+", 1, 6), rstr(rng, "0123456789.elfc_+", 1, 6), arch)
+    return rng.choice(["", "", "Packages/", "a/b/"]) + s + rng.choice(["", ".rpm"])
+
+
 def gen_rpms_op(rng):
     valid = rng.random() < 0.65
     if valid:
         src = rng.random() < 0.3
-        nevra = rng.choice(NEVRA_SRC if src else NEVRA_BIN)
+        nevra = rng.choice(NEVRA_SRC if src else NEVRA_BIN) if rng.random() < 0.7 else random_nevra(rng, src)
         cat = "source" if src else rng.choice(["binary", "debug"])
         srpm = None if src else rng.choice(NEVRA_SRC)
         return [rng.choice(VARIANTS), rng.choice(ARCHES_OK), nevra, rng.choice(PATHS), rng.choice(SIGKEYS), cat, srpm]
